@@ -106,7 +106,10 @@ fn spawn_worker(tx: &mpsc::Sender<Msg>, w: usize, check: &str, tier: &str, seed:
                 Err(_) => break,
             }
         }
+        let pid = child.id();
         let st = child.wait().ok();
+        // a worker that died inside a run could not clean up its scratch directory
+        let _ = std::fs::remove_dir_all(format!("/dev/shm/bcsim.{}", pid));
         let code = st.and_then(|s| s.code());
         let sig = st.and_then(|s| std::os::unix::process::ExitStatusExt::signal(&s));
         let _ = tx.send(Msg::Eof(w, code, sig));
@@ -131,12 +134,16 @@ pub fn run_isolated(scn: &Scenario, timeout_s: f64) -> Result<RunOut, String> {
     let lines = match rx.recv_timeout(std::time::Duration::from_secs_f64(timeout_s)) {
         Ok(l) => l,
         Err(_) => {
+            let pid = child.id();
             let _ = child.kill();
             let _ = child.wait();
+            let _ = std::fs::remove_dir_all(format!("/dev/shm/bcsim.{}", pid));
             return Err("timeout".into());
         }
     };
+    let pid = child.id();
     let st = child.wait().map_err(|e| e.to_string())?;
+    let _ = std::fs::remove_dir_all(format!("/dev/shm/bcsim.{}", pid));
     let mut fatal = None;
     for l in &lines {
         if let Ok(v) = serde_json::from_str::<serde_json::Value>(l) {
@@ -183,6 +190,7 @@ struct Agg {
     steps: u128,
     switches: u128,
     violations: Vec<(u64, Violation)>,
+    pinned: BTreeMap<u64, Scenario>,
     harness_errors: Vec<String>,
     deadline_hit: bool,
 }
@@ -312,7 +320,10 @@ pub fn supervise(args: &[String]) -> i32 {
         }
         reported_classes.insert(key);
         let rs = simrt::rng::run_seed(seed, &check, *i);
-        let scn = gen::generate(&check, &tier, rs);
+        let scn = match agg.pinned.get(i) {
+            Some(p) => p.clone(),
+            None => gen::generate(&check, &tier, rs),
+        };
         println!("violation in run {} (seed {}): [{}] {}", i, rs, v.class, v.detail);
         let (min_scn, min_v, tried) = minimise(&scn, v, 60.0);
         println!("minimised after {} candidate runs: [{}] {}", tried, min_v.class, min_v.detail);
@@ -425,6 +436,9 @@ fn absorb(agg: &mut Agg, i: u64, out: RunOut) {
     agg.sim_ns += out.sim_ns as u128;
     agg.steps += out.steps as u128;
     agg.switches += out.switches as u128;
+    if let Some(p) = out.pinned {
+        agg.pinned.insert(i, *p);
+    }
     for v in out.violations {
         agg.violations.push((i, v));
     }
